@@ -5,8 +5,8 @@
    gen/IdentityGen.v on every run. *)
 From Coq Require Import ZArith List String Bool.
 Import ListNotations.
-Require Import Verif.lib.PyLite Verif.gen.NegotiateGen Verif.lib.Negotiate Verif.gen.IdentityGen
-               Verif.lib.Identity Verif.lib.IdentityProofs.
+Require Import Verif.lib.PyLite Verif.gen.NegotiateGen Verif.lib.Negotiate Verif.lib.NegBytes Verif.gen.IdentityGen
+               Verif.lib.NegSplit Verif.lib.Identity Verif.lib.IdentityProofs Verif.lib.IdentityBytes Verif.lib.IdentityBytesProofs.
 Local Open Scope Z_scope.
 
 (* "A connection is registered as 'the connection to Tub X' only if the TLS peer presented a certificate whose
@@ -153,3 +153,81 @@ Theorem C05_pending_lookups_answered_by_proven_connections :
      (conn_loop cert c = true /\ x = my) \/ (conn_loop cert c = false /\ proven cert tubid_of (conn_cert cert c) x)).
 Proof. exact tub_answers_proven. Qed.
 Print Assumptions C05_pending_lookups_answered_by_proven_connections.
+
+(* ---------------------------------------------------------------------------------------------------------------------
+   ROUND 5: the same statements over RAW BYTES.  brecv_all is Negotiation.dataReceived from the first byte of the
+   connection (PLAINTEXT phase): block splitter (header_verdict, translated), phase dispatch (translated),
+   handlePLAINTEXTServer / handlePLAINTEXTClient (translated statement by statement, incl. the listener's lookup and the
+   redirect branch), parseLines, handleENCRYPTED, the translated identity checks, handleDECIDING, switchToBanana's key.
+   decode (UTF-8 decoding), pre_ok / post_ok / decision_ok (all the non-identity checks) and redirect (the listener's
+   redirect table) are universally quantified: nothing is assumed about them. *)
+
+(* "A connection is registered as 'the connection to Tub X' only if the TLS peer presented a certificate whose hash is X; a
+   client additionally never accepts a peer other than the Tub named in the FURL it dialled" -- for ARBITRARY BYTES in ANY
+   chunking, sent by a peer that never stops, also after errors *)
+Theorem C05_bytes_attach_proven :
+  forall (cert : Type) (tubid_of : cert -> list Z) decode pre_ok post_ok decision_ok redirect r my tgt (p : presented cert)
+         (chunks : list (list Z)) k,
+  In k (b_attached (brecv_all cert tubid_of decode pre_ok post_ok decision_ok redirect r my tgt p chunks)) ->
+  exists crt, leaf p = Some crt /\ tubid_of crt = k /\ (r = Client -> k = tgt).
+Proof. exact bytes_attach_proven. Qed.
+Print Assumptions C05_bytes_attach_proven.
+
+(* "Any mismatch ... aborts the negotiation without creating a usable connection": no Tub.brokerAttached before a hello passed
+   evaluateNegotiationVersion1's identity checks -- if a key was registered, one of the header blocks received on this very
+   connection parsed, carried no error, passed the earlier checks, and its my-tub-id passed the identity checks against the
+   leaf certificate (hence, by C05_identity_is_leaf, no mismatch of claim, certificate and dialled id) *)
+Theorem C05_bytes_no_attach_before_identity :
+  forall (cert : Type) (tubid_of : cert -> list Z) decode pre_ok post_ok decision_ok redirect r my tgt (p : presented cert)
+         (chunks : list (list Z)),
+  b_attached (brecv_all cert tubid_of decode pre_ok post_ok decision_ok redirect r my tgt p chunks) <> [] ->
+  exists hdr d t m, parse_lines decode hdr = Some d /\ dict_has k_error d = false /\ pre_ok d = true /\
+                    handle_hello cert tubid_of r my tgt p (dict_get k_my_tub_id d) = Accept t m.
+Proof. exact bytes_no_attach_before_identity. Qed.
+Print Assumptions C05_bytes_no_attach_before_identity.
+
+(* one transport is registered under at most one key, and under none while it is still negotiating *)
+Theorem C05_bytes_at_most_one_attach :
+  forall (cert : Type) (tubid_of : cert -> list Z) decode pre_ok post_ok decision_ok redirect r my tgt (p : presented cert)
+         (chunks : list (list Z)),
+  let st := brecv_all cert tubid_of decode pre_ok post_ok decision_ok redirect r my tgt p chunks in
+  (List.length (b_attached st) <= 1)%nat /\ (b_phase st <> RP PhBanana -> b_attached st = []).
+Proof. intros. exact (bytes_at_most_one_attach cert tubid_of decode pre_ok post_ok decision_ok redirect r my tgt p chunks). Qed.
+Print Assumptions C05_bytes_at_most_one_attach.
+
+(* in the PLAINTEXT phase (before TLS) nothing the peer says is believed: no identity stored, nothing registered; listeners
+   with redirects are covered (redirect is arbitrary) *)
+Theorem C05_bytes_plaintext_knows_nothing :
+  forall (cert : Type) (tubid_of : cert -> list Z) decode pre_ok post_ok decision_ok redirect r my tgt (p : presented cert)
+         (chunks : list (list Z)),
+  let st := brecv_all cert tubid_of decode pre_ok post_ok decision_ok redirect r my tgt p chunks in
+  b_phase st = RPlaintext -> b_their st = None /\ b_attached st = [].
+Proof. intros. exact (bytes_plaintext_knows_nothing cert tubid_of decode pre_ok post_ok decision_ok redirect r my tgt p chunks H). Qed.
+Print Assumptions C05_bytes_plaintext_knows_nothing.
+
+(* `assert theirTubID` (not executed under python -O): without the asserts the translated checks additionally accept exactly
+   the anonymous peer on a listener (no certificate AND no my-tub-id), stored as TubRef(None); every id they accept is still
+   the hash of the presented certificate (client: and the dialled id) ... *)
+Theorem C05_without_asserts : forall (cert : Type) (tubid_of : cert -> list Z) ic target c claimed r,
+  ev1_identity_noassert cert tubid_of ic target c claimed = Ok r ->
+  (r = None /\ c = None /\ claimed = None /\ ic = false) \/
+  (exists crt t, c = Some crt /\ tubid_of crt = t /\ claimed = Some t /\ r = Some t /\ (ic = true -> t = target)).
+Proof. exact ev1_noassert_sound. Qed.
+Print Assumptions C05_without_asserts.
+
+(* ... and since crypto.peerFromTransport raises when the peer presented no certificate (peer_from_transport), the anonymous
+   case cannot arise: with a certificate the unchecked statements accept only its hash *)
+Theorem C05_without_asserts_certificate_still_required : forall (cert : Type) (tubid_of : cert -> list Z) ic target crt claimed r,
+  ev1_identity_noassert cert tubid_of ic target (Some crt) claimed = Ok r ->
+  r = Some (tubid_of crt) /\ claimed = Some (tubid_of crt) /\ (ic = true -> tubid_of crt = target).
+Proof. exact ev1_noassert_with_certificate. Qed.
+Print Assumptions C05_without_asserts_certificate_still_required.
+
+(* "(URL inside an inbound reference must carry the connection's tub id)" as a HISTORY: whatever sequence of my-reference
+   sequences (with or without URL, for new or already known clids) the peer sends over the connection registered under k,
+   every reference-tracker that carries a URL names k -- hence, by C05_getReference_proven, the id its transport's leaf
+   certificate hashes to.  ref_step is built on the translated inbound_url_check and known_clid_url_policy. *)
+Theorem C05_inbound_reference_history : forall k (ms : list (Z * option (list Z))) clid u,
+  In (clid, Some u) (ref_run k ms) -> u = k.
+Proof. exact ref_urls_proven. Qed.
+Print Assumptions C05_inbound_reference_history.
